@@ -1,0 +1,30 @@
+//go:build verif
+
+package tbtcpg
+
+// ---------------------------------------------------------------------------
+// C33: proposal discovery.
+//@ ghost anyRunOK bool
+//@ ghost lastRunProposal ref
+//@ ghost lastRunTask ref
+//@ assume func ProposalTask.Run
+//@   modifies ghost.anyRunOK, ghost.lastRunProposal, ghost.lastRunTask
+//@   ensures ghost.lastRunTask == recv && ghost.lastRunProposal == result0 && ghost.anyRunOK == (old(ghost.anyRunOK) || (result1 && result2 == nil))
+//@ assume func golang.org/x/exp/slices.IndexFunc
+//@   ensures result == -1 || (0 <= result && result < len(arg0))
+
+//@ func ProposalGenerator.Generate
+//@   property C33
+//@   opt noframe 1
+//@   requires pg != nil && request != nil && !ghost.anyRunOK
+//@   modifies ghost.anyRunOK, ghost.lastRunProposal, ghost.lastRunTask, alloc
+//@   ensures [returns-the-first-task-result-or-a-no-op] err == nil ==> (ghost.anyRunOK && result0 == ghost.lastRunProposal) || (!ghost.anyRunOK && result0 != nil && dyntype(result0) == typeid(*tbtc.NoopProposal))
+//@   ensures [a-task-error-yields-no-proposal] err != nil ==> result0 == nil
+//@   loop 1 invariant !ghost.anyRunOK
+
+//@ func findDeposits
+//@   property C33
+//@   opt noframe 1
+//@   requires fnLogger != nil
+//@   ensures [only-unswept-and-sufficiently-confirmed-deposits-are-proposed] err == nil ==> (forall k int :: 0 <= k && k < len(result0) ==> result0[k] != nil && (skipSwept ==> !result0[k].IsSwept) && (skipUnconfirmed ==> result0[k].Confirmations >= tbtc.DepositSweepRequiredFundingTxConfirmations))
+//@   loop 1 invariant (forall k int :: 0 <= k && k < len(result) ==> result[k] != nil && allocated(result[k]) && (skipSwept ==> !result[k].IsSwept) && (skipUnconfirmed ==> result[k].Confirmations >= tbtc.DepositSweepRequiredFundingTxConfirmations))
